@@ -55,12 +55,7 @@ func (s *ScriptSub) Subscribe(ctx context.Context, topic string) (<-chan *messag
 		return nil, errors.New("scripted subscriber: broker temporarily unavailable")
 	}
 	s.rec.Log("sub", itoa(s.h))
-	if s.SubGate {
-		select {
-		case <-s.sc.subGate:
-		case <-time.After(s.sc.bound + 10*time.Second):
-		}
-	}
+	s.sc.gateSubscribe(s.SubGate)
 	s.mu.Lock()
 	defer s.mu.Unlock()
 	s.subscribed++
@@ -197,10 +192,14 @@ type LogSub struct {
 	rec   *Rec
 	h     int
 	inner message.Subscriber
+	sc    *run
 }
 
 func (s *LogSub) Subscribe(ctx context.Context, topic string) (<-chan *message.Message, error) {
 	s.rec.Log("sub", itoa(s.h))
+	if s.sc != nil {
+		s.sc.gateSubscribe(false)
+	}
 	return s.inner.Subscribe(ctx, topic)
 }
 
